@@ -87,7 +87,7 @@ class Opt:
         self.tilde_code_in_strike = False      # known finding C03-strike-vs-code-tilde
         self.empty_last_item = True            # (was known finding C03-empty-last-item-swallows-blank, repaired in 4ed4651)
         self.table_escaped_pipe = True         # (was off for the round-trip profiles: C09-escaped-pipe-in-table-cell, repaired in f65540f)
-        self.table_first_in_item = False   # known finding C03-table-starts-later-list-item
+        self.table_first_in_item = True    # (was known finding C03-table-starts-later-list-item, repaired in f5694e9)
         self.para_after_closed_container = True    # (was known finding C03-lazy-after-nonparagraph-*, repaired in c774fd1)
         self.odd_blank_lines = False  # blank lines made of FF / NBSP / EM SPACE ... (round-trip profile only)
         self.adjacent_lists = False   # a list directly followed (after a blank line) by a list of another type (profile "full")
